@@ -128,6 +128,7 @@ type Unit struct {
 	compVolatileType map[string]bool
 	verBound map[string]string
 	acquireSnap *State
+	lastAcquireSnap *State
 	topRets []retRec
 	nextOverride string
 	wantCallCovers bool
